@@ -271,21 +271,23 @@ theorem erase_then_respawn (g : Graph) (s : State) (name : String) (p : Int) (F 
 outside the closure of the matched ids -- the ids, their graph children, and the parentless successors of both
 (`spawn_next_parentless` of a removed proxy may merge flows into its successor) -- is in the pool afterwards, the
 very same object: status, flows, outputs, prerequisites, flags -/
-theorem others_untouched (g : Graph) (s : State) (ids : List Key) (F : List Nat) (p : Int) (n : String) (x : Proxy)
+theorem others_untouched (g : Graph) (s : State) (ids : List Key) (F : List Nat) (chs : List (Key × List Key))
+    (p : Int) (n : String) (x : Proxy)
     (hout : (p, n) ∉ ids.flatMap (closure1 g)) (hx : s.get? p n = some x) :
-    (removeCore g s ids F).1.get? p n = some x :=
-  removeCore_keeps g s ids F p n x hout hx
+    (removeCore g s ids F chs).1.get? p n = some x :=
+  removeCore_keeps g s ids F chs p n x hout hx
 
 /-- **`kill_tasks`** works on the transient objects of the removed proxies: the pool is not touched -/
 theorem kill_leaves_pool (g : Graph) (s : State) (keys : List Key) : (killTasks g s keys).pool = s.pool :=
   killTasks_pool g s keys
 
 /-- loop + kill -/
-theorem removal_frame (g : Graph) (s : State) (ids : List Key) (F : List Nat) (p : Int) (n : String) (x : Proxy)
+theorem removal_frame (g : Graph) (s : State) (ids : List Key) (F : List Nat) (chs : List (Key × List Key))
+    (p : Int) (n : String) (x : Proxy)
     (hout : (p, n) ∉ ids.flatMap (closure1 g)) (hx : s.get? p n = some x) :
-    (killTasks g (removeCore g s ids F).1 (removeCore g s ids F).2.1).get? p n = some x := by
+    (killTasks g (removeCore g s ids F chs).1 (removeCore g s ids F chs).2.1).get? p n = some x := by
   rw [get?_congr (killTasks_pool _ _ _)]
-  exact removeCore_keeps g s ids F p n x hout hx
+  exact removeCore_keeps g s ids F chs p n x hout hx
 
 /-! ### when is the history erased (finding `erase-deferred`) -/
 
@@ -340,14 +342,15 @@ flows in the DB and its children stand down, like an id that is not in the pool 
 def elsewhere_full : Prop :=
   ∀ (g : Graph), g.rmAlwaysDb = RmFlags.alwaysDb → ∀ (ids : List Key) (F : List Nat) (st : State) (tk : List Key)
     (any : Bool) (k : Key) (x : Proxy), st.get? k.1 k.2 = some x → (x.matchFlows F).isEmpty = true →
-    (removeOne g ids F (st, tk, any) k).1 = (removeDownstream g st ids k F).1
+    (removeOne g ids F [] (st, tk, any) k).1 = (removeDownstream g st ids k F).1
 
 theorem elsewhere_partial (g : Graph) (hg : g.rmAlwaysDb = true) (ids : List Key) (F : List Nat) (st : State)
     (tk : List Key) (any : Bool) (k : Key) (x : Proxy) (hx : st.get? k.1 k.2 = some x)
     (hm : (x.matchFlows F).isEmpty = true) :
-    (removeOne g ids F (st, tk, any) k).1 = (removeDownstream g st ids k F).1 := by
+    (removeOne g ids F [] (st, tk, any) k).1 = (removeDownstream g st ids k F).1 := by
   unfold removeOne
   simp only [hx, hm, hg, if_true]
+  rfl
 
 /-- the witness: `1/b` is in the pool in flow 2 and has a row in flow 1 -/
 def cexElse : State :=
@@ -359,11 +362,11 @@ def cexGraph : Graph := { icp := 1, fcp := 1, start := 1, runahead := 1, tasks :
 theorem elsewhere_counterexample :
     ¬ ∀ (g : Graph), g.rmAlwaysDb = false → ∀ (ids : List Key) (F : List Nat) (st : State) (tk : List Key)
       (any : Bool) (k : Key) (x : Proxy), st.get? k.1 k.2 = some x → (x.matchFlows F).isEmpty = true →
-      (removeOne g ids F (st, tk, any) k).1 = (removeDownstream g st ids k F).1 := by
+      (removeOne g ids F [] (st, tk, any) k).1 = (removeDownstream g st ids k F).1 := by
   intro h
   have h1 := h cexGraph rfl [(1, "b")] [1] cexElse [] false (1, "b") { pt := 1, name := "b", flows := [2] }
     rfl (by decide)
-  have h2 : (removeOne cexGraph [(1, "b")] [1] (cexElse, [], false) (1, "b")).1.qStUpd.length = 0 := by decide
+  have h2 : (removeOne cexGraph [(1, "b")] [1] [] (cexElse, [], false) (1, "b")).1.qStUpd.length = 0 := by decide
   have h3 : (removeDownstream cexGraph cexElse [(1, "b")] (1, "b") [1]).1.qStUpd.length = 1 := by decide
   rw [h1, h3] at h2
   exact absurd h2 (by decide)
@@ -402,7 +405,7 @@ def final (g : Graph) (ops : List Op) : State := ops.foldl (step g) (init g)
 /-- `1/a` starts (`1/b` is spawned and waits for `1/c`), `1/b` is removed, and in the same main loop `1/c` starts -/
 def raceOps : List Op :=
   [.loop, .subres 1 "a" true 1, .subres 1 "c" true 1, .msg 1 "a" 1 "started", .loop,
-   .rm [(1, "b")] [] [], .msg 1 "c" 1 "started", .loop]
+   .rm [(1, "b")] [] [] [], .msg 1 "c" 1 "started", .loop]
 
 /-- the full statement: `1/b`, removed and then needed again, is spawned again -/
 def respawn_full : Prop :=
@@ -435,10 +438,10 @@ example :
     let ops := [Op.loop, .subres 1 "a" true 1, .subres 1 "c" true 1, .msg 1 "a" 1 "started", .loop]
     ((final (exGraph false) ops).pool.map fun x => (x.pt, x.name, x.status, x.pre.map (·.atoms.map (·.2)))) =
       [(1, "a", .running, []), (1, "c", .submitted, []), (1, "b", .waiting, [[.nat], [.no]])] ∧
-    ((final (exGraph false) (ops ++ [.rm [(1, "b")] [] []])).pool.map fun x => (x.pt, x.name, x.status)) =
+    ((final (exGraph false) (ops ++ [.rm [(1, "b")] [] [] []])).pool.map fun x => (x.pt, x.name, x.status)) =
       [(1, "a", .running), (1, "c", .submitted)] ∧
-    (final (exGraph false) (ops ++ [.rm [(1, "b")] [] []])).qStUpd.length = 1 ∧
-    (final (exGraph true) (ops ++ [.rm [(1, "b")] [] []])).qStUpd.length = 0 := by decide +kernel
+    (final (exGraph false) (ops ++ [.rm [(1, "b")] [] [] []])).qStUpd.length = 1 ∧
+    (final (exGraph true) (ops ++ [.rm [(1, "b")] [] [] []])).qStUpd.length = 0 := by decide +kernel
 
 /-- `others_untouched`: `1/a` is outside the closure of the matched id `1/b` -/
 example : (1, "a") ∉ [(1, "b")].flatMap (closure1 (exGraph false)) := by decide +kernel
@@ -447,8 +450,8 @@ example : (1, "a") ∉ [(1, "b")].flatMap (closure1 (exGraph false)) := by decid
 satisfied) stand down -/
 example :
     let ops := [Op.loop, .subres 1 "a" true 1, .subres 1 "c" true 1, .msg 1 "a" 1 "started", .loop]
-    ((final (exGraph false) (ops ++ [.rm [(1, "a")] [] []])).pool.map fun x => (x.pt, x.name)) = [(1, "c")] ∧
-    ((final (exGraph false) (ops ++ [.rm [(1, "c")] [] []])).pool.map fun x => (x.pt, x.name, x.pre.map (·.atoms.map (·.2)))) =
+    ((final (exGraph false) (ops ++ [.rm [(1, "a")] [] [] []])).pool.map fun x => (x.pt, x.name)) = [(1, "c")] ∧
+    ((final (exGraph false) (ops ++ [.rm [(1, "c")] [] [] []])).pool.map fun x => (x.pt, x.name, x.pre.map (·.atoms.map (·.2)))) =
       [(1, "a", []), (1, "b", [[.nat], [.no]])] := by decide +kernel
 
 /-- `history_erased` / `runs_again`: the hypotheses are met by a state with one committed row -/
